@@ -1,9 +1,9 @@
 (* C15 — ECH hides the real server name and is honoured end to end.
-   Property theorems only; each closed by a lemma from Proofs/EchP.v.
+   Property theorems only; each closed by a lemma from Proofs/EchP.v, EchOuterP.v or EchExtractP.v.
 
    State: the model describes the code WITH fixes/C15-ech-hrr-keyshare.diff (F-15) and
    fixes/C14-ech-rejected-public-name.diff (F-14, owned by C14). On the unfixed code C15_ech_hrr fails
-   (Proofs/EchP.hrr_prefix_refuted keeps the witness; the runner replays it against the real code in every run).
+   (Proofs/EchOuterP.hrr_prefix_refuted keeps the witness; the runner replays it against the real code in every run).
 
    Partial: HPKE (seal), the per-extension body parsers of clientHelloMsg.unmarshal (body_ok), hostnameInSNI,
    GetPaddingLen and x509 verification are universally quantified function arguments; the TLS 1.3 key schedule
